@@ -88,6 +88,15 @@ def run(ctx):
             attempt(lambda: kh.address(encoding='bech32', script_type='p2wpkh'))
             enc_h = attempt(lambda: kh.encrypt(pw))
             enc_cases.append(('bip38_enc %s %d %d %s' % (net, d, 1, derived.hex()), enc_h or 'none', True))
+    # HD key objects encrypt their key like plain key objects, whatever witness type the object has
+    for wt_ in ('legacy', 'segwit', 'p2sh-segwit'):
+        d = rng.choice(secrets)
+        pw = rng.choice(passes)
+        ah_line = run_driver(['bip38_addrhash bitcoin %d 1' % d])[0].split(' | ')[0]
+        derived = scrypt64(unicodedata.normalize('NFC', pw).encode('utf8'), bytes.fromhex(ah_line.split(' ')[0]))
+        enc_h = attempt(lambda: HDKey(Key(d), witness_type=wt_).encrypt(pw))
+        ctx.count('hdkey-encrypt:' + wt_)
+        enc_cases.append(('bip38_enc bitcoin %d 1 %s' % (d, derived.hex()), enc_h or 'none', True))
     ctx.compare(enc_cases, 'encrypt')
     ctx.compare(dec_cases, 'decrypt')
 
@@ -118,11 +127,13 @@ def run(ctx):
     combos = [(False, True), (True, True), (False, False), (True, False)]
     rng.shuffle(combos)
     patterns = [1, 0, 2, 3]
+    ec_nets = ['bitcoin', 'bitcoin', 'bitcoin', 'litecoin', 'testnet', 'dogecoin']
     for trial in range(16 if T else 6):
         pw = rng.choice(passes[:4])
+        ec_net = ec_nets[trial % len(ec_nets)] if trial < len(ec_nets) else rng.choice(ec_nets)
         # every combination of (lot/sequence given, compressed) - the flag byte is 0x20 / 0x00 / 0x24 / 0x04 (BIP38)
         with_lot, comp = combos[trial % 4]
-        lot, seq = (rng.randrange(100000, 999999), rng.randrange(0, 4095)) if with_lot else (None, None)
+        lot, seq = (rng.randrange(100000, 999999), rng.choice([0, 0, 1, 4095, rng.randrange(0, 4095)])) if with_lot else (None, None)
         salt = bytes(rng.randrange(256) for _ in range(8))
         # seeds with structure: leading / inner / trailing zero bytes (fixed-width fields must keep them), besides random ones
         pat = patterns[trial % 4] if trial < 4 else rng.randrange(4)
@@ -137,16 +148,19 @@ def run(ctx):
         ctx.nontrivial.add(hash((pw, lot, seq, seedb)))
         try:
             ip = bip38_intermediate_password(pw, lot=lot, sequence=seq, owner_salt=salt)
-            res = bip38_create_new_encrypted_wif(ip, compressed=comp, seed=seedb)
+            res = bip38_create_new_encrypted_wif(ip, compressed=comp, seed=seedb, network=ec_net)
             payload = b58decode_check_harness(res['encrypted_wif'])
             want_flag = (0x20 if comp else 0x00) | (0x04 if lot is not None else 0x00)
             if payload is None or payload[:2] != b'\x01\x43' or payload[2] != want_flag:
                 ctx.violation('EC-multiplied key carries a wrong prefix / flag byte',
                               {'op': 'ec-mode-flag', 'lot': lot, 'compressed': comp, 'observed': None if payload is None else payload[:3].hex(),
                                'expected': '0143%02x' % want_flag})
-            k = Key(res['encrypted_wif'], password=pw)
+            # (the passphrase is typed in the other unicode normal form when it comes back)
+            pw_back = unicodedata.normalize('NFD' if trial % 2 else 'NFC', pw)
+            ctx.count('ec-network:' + ec_net)
+            k = Key(res['encrypted_wif'], password=pw_back, network=ec_net)
             ok = k.address(compressed=comp) == res['address'] and k.compressed == comp
-            wrong = attempt(lambda: Key(res['encrypted_wif'], password=pw + 'x'))
+            wrong = attempt(lambda: Key(res['encrypted_wif'], password=pw + 'x', network=ec_net))
         except Exception as e:
             ctx.violation('EC-multiplied key does not decrypt with its passphrase', {'op': 'ec-mode', 'error': repr(e)[:150]})
             continue
